@@ -120,6 +120,17 @@ func (u *Unmarshaler) fillMap(fieldType reflect.Type, value reflect.Value, mapVa
 		return errValueNotSettable
 	}
 
+	// 指向字典的指针字段：填到它指向的字典里（否则下面的 fieldType.Key() 会 panic）
+	if value.Kind() == reflect.Ptr {
+		if value.IsNil() {
+			value.Set(reflect.New(value.Type().Elem()))
+		}
+		value = value.Elem()
+	}
+	if fieldType.Kind() == reflect.Ptr {
+		fieldType = fieldType.Elem()
+	}
+
 	fieldKeyType := fieldType.Key()
 	fieldElemType := fieldType.Elem()
 	targetValue, err := u.generateMap(fieldKeyType, fieldElemType, mapValue)
@@ -159,6 +170,17 @@ func (u *Unmarshaler) fillMapFromString(value reflect.Value, mapValue any) error
 func (u *Unmarshaler) fillSlice(fieldType reflect.Type, value reflect.Value, mapValue any) error {
 	if !value.CanSet() {
 		return errValueNotSettable
+	}
+
+	// 指向切片的指针（字段本身，或 []*[]T 的元素）：填到它指向的切片里
+	if value.Kind() == reflect.Ptr {
+		if value.IsNil() {
+			value.Set(reflect.New(value.Type().Elem()))
+		}
+		value = value.Elem()
+	}
+	if fieldType.Kind() == reflect.Ptr {
+		fieldType = fieldType.Elem()
 	}
 
 	baseType := fieldType.Elem()
@@ -236,6 +258,17 @@ func (u *Unmarshaler) fillSliceFromString(fieldType reflect.Type, value reflect.
 		}
 	default:
 		return errUnsupportedType
+	}
+
+	// 指向切片的指针字段：填到它指向的切片里
+	if value.Kind() == reflect.Ptr {
+		if value.IsNil() {
+			value.Set(reflect.New(value.Type().Elem()))
+		}
+		value = value.Elem()
+	}
+	if fieldType.Kind() == reflect.Ptr {
+		fieldType = fieldType.Elem()
 	}
 
 	baseFieldType := Deref(fieldType.Elem())
@@ -376,9 +409,16 @@ func (u *Unmarshaler) generateMap(keyType, elemType reflect.Type, mapValue any) 
 				return emptyValue, errTypeMismatch
 			}
 
-			innerValue, err := u.generateMap(elemType.Key(), elemType.Elem(), keythMap)
+			// 元素可能是指向字典的指针：按所指的字典类型生成，再取地址
+			innerValue, err := u.generateMap(dereffedElemType.Key(), dereffedElemType.Elem(), keythMap)
 			if err != nil {
 				return emptyValue, err
+			}
+
+			if fieldElemKind == reflect.Ptr {
+				target := reflect.New(dereffedElemType)
+				target.Elem().Set(innerValue)
+				innerValue = target
 			}
 
 			targetValue.SetMapIndex(key, innerValue)
